@@ -137,6 +137,7 @@ func node.add
   owns n
   gives result
   requires n != nil && good(view(n)) && iscmp(compare)
+  decreases size(view(n))
   ensures[good]   result != nil && good(view(result))
   ensures[cnt]    forall x T :: {cnt(view(result), x)} cnt(view(result), x) == old(cnt(view(n), x)) + b2i(x == value)
   ensures[size]   size(view(result)) == old(size(view(n))) + 1
@@ -147,6 +148,7 @@ func node.popLeftMost
   owns n
   gives child, node(leftMost)
   requires n != nil && good(view(n))
+  decreases size(view(n))
   ensures[min]    leftMost != nil && cnt(old(view(n)), leftMost.value) > 0 && (forall x T :: {cnt(view(child), x)} cnt(view(child), x) > 0 ==> cmp(leftMost.value, x) <= 0)
   ensures[good]   good(view(child))
   ensures[cnt]    forall x T :: {cnt(view(child), x)} cnt(view(child), x) == cnt(old(view(n)), x) - b2i(x == leftMost.value)
@@ -158,6 +160,7 @@ func node.remove
   owns n
   gives result0
   requires n != nil && good(view(n)) && iscmp(compare)
+  decreases size(view(n))
   ensures[ok]      result1 == old(cnt(view(n), value) > 0)
   ensures[absent]  !result1 ==> result0 == n && view(result0) == old(view(n))
   ensures[good]    good(view(result0))
@@ -170,6 +173,7 @@ func node.find
   requires n != nil && bst(view(n)) && iscmp(compare)
   ensures[def] (result != nil) == (cnt(view(n), value) > 0)
   loop 0 invariant current != nil && bst(view(current)) && (cnt(view(n), value) > 0) == (cnt(view(current), value) > 0)
+  loop 0 decreases size(view(current))
 
 func node.contains
   property C01
@@ -187,6 +191,7 @@ axiom nthpost_node(l Tree, v T, h int, r Tree, i int) auto: {nthpost(Node(l, v, 
 func node.walkPreOrder
   property C01
   requires n != nil
+  decreases size(view(n))
   ensures[len]   loglen(f) == old(loglen(f)) + size(view(n))
   ensures[old]   forall i :: 0 <= i && i < old(loglen(f)) ==> logarg(f, 0, i) == old(logarg(f, 0, i))
   ensures[order] forall i :: {nthpre(view(n), i)} 0 <= i && i < size(view(n)) ==> logarg(f, 0, old(loglen(f)) + i) == nthpre(view(n), i)
@@ -195,6 +200,7 @@ func node.walkPreOrder
 func node.walkInOrder
   property C01
   requires n != nil
+  decreases size(view(n))
   ensures[len]   loglen(f) == old(loglen(f)) + size(view(n))
   ensures[old]   forall i :: 0 <= i && i < old(loglen(f)) ==> logarg(f, 0, i) == old(logarg(f, 0, i))
   ensures[order] forall i :: {nthin(view(n), i)} 0 <= i && i < size(view(n)) ==> logarg(f, 0, old(loglen(f)) + i) == nthin(view(n), i)
@@ -203,6 +209,7 @@ func node.walkInOrder
 func node.walkPostOrder
   property C01
   requires n != nil
+  decreases size(view(n))
   ensures[len]   loglen(f) == old(loglen(f)) + size(view(n))
   ensures[old]   forall i :: 0 <= i && i < old(loglen(f)) ==> logarg(f, 0, i) == old(logarg(f, 0, i))
   ensures[order] forall i :: {nthpost(view(n), i)} 0 <= i && i < size(view(n)) ==> logarg(f, 0, old(loglen(f)) + i) == nthpost(view(n), i)
